@@ -190,16 +190,62 @@ fn constrain_inst(rng: &mut Rng) -> String {
     )
 }
 
+/// Composer: a function chaining several hinted operations with a branch, a loop and locals, so
+/// that hinted libfuncs are also met after merges, inside loops (ap unknown) and around calls.
+fn compose(rng: &mut Rng) -> String {
+    // Each snippet is an expression of type felt252 over a: u128, b: u64, c: u8, f: felt252, i: u8.
+    const SNIPPETS: &[&str] = &[
+        "(a / (b.into() + 1)).into()",
+        "match a.checked_add(b.into()) { Some(v) => v.into(), None => 1 }",
+        "match a.checked_sub(b.into()) { Some(v) => v.into(), None => 2 }",
+        "{ let (q, r) = DivRem::div_rem(b, (c.into() + 1_u64).try_into().unwrap()); (q + r).into() }",
+        "b.sqrt().into()",
+        "{ let w = a.wide_mul(a); w.low.into() + w.high.into() }",
+        "match TryInto::<felt252, u8>::try_into(f) { Some(v) => v.into(), None => 3 }",
+        "match TryInto::<u128, u16>::try_into(a) { Some(v) => v.into(), None => 4 }",
+        "{ let x: u256 = f.into(); (x / 7_u256).low.into() }",
+        "{ let x: u256 = f.into(); let y: u256 = a.into(); if x < y { 5 } else { 6 } }",
+        "{ let mut d: Felt252Dict<felt252> = Default::default(); d.insert(f, 5); d.insert(f + 1, i.into()); d.get(f) + d.get(f + 1) }",
+        "{ let arr = array![a, a / 2, a / 3]; match arr.get(c.into() % 4) { Some(x) => (*x.unbox()).into(), None => 7 } }",
+        "{ let sp = array![b, b / 2, b / 4, 9].span(); let sl = sp.slice(1, (i % 3).into()); sl.len().into() }",
+        "if a < b.into() { 8 } else { 9 }",
+        "{ let s: i64 = 5 - c.into(); let t: i64 = s * 3; if t < 0 { 10 } else { t.try_into().unwrap_or(11_u8).into() } }",
+        "match EcPointTrait::new_nz_from_x(f) { Some(p) => { let (x, _y) = p.coordinates(); x }, None => 12 }",
+        "{ let bx = BoxTrait::new((a, b)); let (p, q) = bx.unbox(); p.into() + q.into() }",
+        "(c + i).into()",
+        "{ let m: u64 = b % 1000; (m * m).into() }",
+    ];
+    let mut body = String::new();
+    body.push_str("    let mut acc: felt252 = f;\n    let i: u8 = c % 3;\n");
+    for k in 0..1 + rng.below(3) {
+        body.push_str(&format!("    let x{k}: felt252 = {};\n    acc = acc * 3 + x{k};\n", SNIPPETS[rng.below(SNIPPETS.len())]));
+    }
+    body.push_str(&format!(
+        "    if c % 2 == 0 {{\n        acc += {};\n    }} else {{\n        acc += {};\n    }}\n",
+        SNIPPETS[rng.below(SNIPPETS.len())],
+        SNIPPETS[rng.below(SNIPPETS.len())]
+    ));
+    body.push_str(&format!(
+        "    let mut i: u8 = 0;\n    while i != c % 4 {{\n        acc = acc * 5 + {};\n        i += 1;\n    }}\n",
+        SNIPPETS[rng.below(SNIPPETS.len())]
+    ));
+    body.push_str(&format!("    let tail: felt252 = {};\n    acc + tail\n", SNIPPETS[rng.below(SNIPPETS.len())]));
+    format!(
+        "use core::num::traits::{{CheckedAdd, CheckedSub, Sqrt, WideMul}};\nuse core::dict::Felt252Dict;\nuse core::ec::EcPointTrait;\n\nfn gen_compose(a: u128, b: u64, c: u8, f: felt252) -> felt252 {{\n{body}}}\n"
+    )
+}
+
 /// Writes `n` generated single-function files under `dir`; returns their paths.
 pub fn generate(dir: &Path, seed: u64, n: usize) -> Vec<PathBuf> {
     let _ = std::fs::create_dir_all(dir);
     let mut out = vec![];
     for k in 0..n {
         let mut rng = Rng::stream(simcore::mix(seed, k as u64), "c03-gen");
-        let (kind, src) = match k % 4 {
-            0 | 1 => ("divrem", div_rem(&mut rng)),
-            2 => ("downcast", downcast_inst(&mut rng)),
-            _ => ("constrain", constrain_inst(&mut rng)),
+        let (kind, src) = match if k % 32 == 7 { 7 } else { (k % 16) % 7 + 8 * ((k % 16) / 7).min(1) } {
+            0 | 1 | 4 | 8 | 9 | 12 | 15 => ("divrem", div_rem(&mut rng)),
+            2 | 5 | 10 | 13 => ("downcast", downcast_inst(&mut rng)),
+            3 | 6 | 11 | 14 => ("constrain", constrain_inst(&mut rng)),
+            _ => ("compose", compose(&mut rng)),
         };
         let p = dir.join(format!("gen_{kind}_{k:04}.cairo"));
         if std::fs::write(&p, src).is_ok() {
